@@ -4,6 +4,8 @@ From Coq Require Import List Bool NArith PeanoNat Lia.
 Import ListNotations.
 Require Import PV.Binder.Kind PV.Gen.Kinds PV.Binder.Sig PV.Binder.SigAssign PV.Binder.PyBind.
 Require Import PV.Proofs.SigAssignRefute.
+Close Scope N_scope.
+Open Scope nat_scope.
 
 Definition C_full_statement : Prop := forall e a npos kws,
   valid_sig e = true -> valid_sig a = true -> names_nodup kws = true ->
@@ -12,7 +14,7 @@ Definition C_full_statement : Prop := forall e a npos kws,
 Lemma full_statement_refuted : ~ C_full_statement.
 Proof.
   intros H. destruct refute_kwonly_hits_consumed_positional as (Ve & Va & Hk & Hb & Hn & _).
-  rewrite (H _ _ 1%nat [2%N] Ve Va eq_refl Hk Hb) in Hn. discriminate.
+  rewrite (H _ _ 1 [2%N] Ve Va eq_refl Hk Hb) in Hn. discriminate.
 Qed.
 
 Lemma param_of_kind_has : forall k s,
@@ -55,4 +57,163 @@ Proof.
   split; [assumption|]. unfold kinds_ok. destruct (sca e a) as [obs|]; [|discriminate].
   split; [reflexivity|]. exists obs. split; [reflexivity|].
   intros t m Hin. rewrite forallb_forall in H2. apply (H2 (t, m) Hin).
+Qed.
+
+(* ---------- capacity theorems (any number of parameters) ---------- *)
+
+Lemma kw_target_b_intro : forall (a : sig) t,
+  In t a -> is_kw_target (pkind t) = true -> kw_target a (pname t) = true.
+Proof.
+  intros a t Hin Hk. unfold kw_target. apply existsb_exists. exists t.
+  split; [assumption|]. rewrite Hk, N.eqb_refl. reflexivity.
+Qed.
+
+Lemma find_param_some : forall n s t, find_param n s = Some t -> In t s /\ pname t = n.
+Proof.
+  intros n s t H. unfold find_param in H. apply find_some in H as [H1 H2].
+  apply N.eqb_eq in H2. auto.
+Qed.
+
+(* keyword capacity: without **kwargs on the accepted side, every keyword
+   target of the expected signature is a keyword target of the accepted one *)
+Lemma sca_loop_kw : forall a e i st st',
+  sca_loop a i st e = Some st' -> has_kind VK a = false ->
+  forall m, In m e -> is_kw_target (pkind m) = true -> kw_target a (pname m) = true.
+Proof.
+  intros a. induction e as [|m0 r IH]; intros i st st' H Hvk m Hin Hk; [contradiction|].
+  cbn [sca_loop] in H. destruct (sca_step a i st m0) as [st1|] eqn:Es; [|discriminate].
+  destruct Hin as [<-|Hin]; [|eapply IH; eassumption].
+  clear IH H. unfold sca_step in Es.
+  assert (Hnone : param_of_kind VK a = None).
+  { pose proof (param_of_kind_has VK a) as P. rewrite Hvk in P.
+    destruct (param_of_kind VK a); [discriminate|reflexivity]. }
+  rewrite Hnone in Es. rewrite andb_false_r in Es.
+  destruct (pkind m0) eqn:Ek; try discriminate.
+  - (* POK *)
+    destruct (nth_error a i) as [t|] eqn:En; [|discriminate].
+    destruct (pkind t) eqn:Et; try discriminate.
+    destruct (N.eqb (pname m0) (pname t)) eqn:Enm; [|discriminate]. apply N.eqb_eq in Enm.
+    rewrite Enm. apply kw_target_b_intro; [eapply nth_error_In; eassumption|rewrite Et; reflexivity].
+  - (* KO *)
+    destruct (find_param (pname m0) a) as [t|] eqn:Ef; [|discriminate].
+    destruct (is_kw_target (pkind t)) eqn:Et; [|discriminate].
+    apply find_param_some in Ef as [Hin Hn]. rewrite <- Hn. apply kw_target_b_intro; assumption.
+Qed.
+
+Theorem accept_keyword_capacity : forall e a, kinds_ok e a = true ->
+  has_kind VK a = true \/ forall k, kw_target e k = true -> kw_target a k = true.
+Proof.
+  intros e a H. destruct (has_kind VK a) eqn:Hvk; [left; reflexivity|right].
+  unfold kinds_ok, sca in H.
+  destruct (sca_loop a 0 (mkC [] [] [] []) e) as [st|] eqn:E; [|discriminate].
+  intros k Hk. unfold kw_target in Hk. apply existsb_exists in Hk as [m [Hin Hm]].
+  apply andb_true_iff in Hm as [Hm1 Hm2]. apply N.eqb_eq in Hm2. subst k.
+  eapply sca_loop_kw; eassumption.
+Qed.
+
+(* positional capacity: without *args on the accepted side, position i of the
+   accepted signature is positional whenever position i of the expected one is *)
+Lemma sca_loop_pos : forall a e i st st',
+  sca_loop a i st e = Some st' -> has_kind VP a = false ->
+  forall j m, nth_error e j = Some m -> is_positional (pkind m) = true ->
+  exists t, nth_error a (i + j) = Some t /\ is_positional (pkind t) = true.
+Proof.
+  intros a. induction e as [|m0 r IH]; intros i st st' H Hvp j m Hn Hp; [destruct j; discriminate|].
+  cbn [sca_loop] in H. destruct (sca_step a i st m0) as [st1|] eqn:Es; [|discriminate].
+  destruct j as [|j].
+  - cbn in Hn. injection Hn as ->. rewrite Nat.add_0_r. clear IH H. unfold sca_step in Es.
+    assert (Hnone : param_of_kind VP a = None).
+    { pose proof (param_of_kind_has VP a) as P. rewrite Hvp in P.
+      destruct (param_of_kind VP a); [discriminate|reflexivity]. }
+    rewrite Hnone in Es. cbn [andb] in Es.
+    destruct (pkind m) eqn:Ek; try discriminate.
+    + destruct (nth_error a i) as [t|]; [|discriminate].
+      destruct (is_positional (pkind t)) eqn:Et; [|discriminate]. eauto.
+    + destruct (nth_error a i) as [t|]; [|discriminate].
+      destruct (pkind t) eqn:Et; try discriminate. exists t. rewrite Et. auto.
+  - cbn in Hn. replace (i + S j)%nat with (S i + j)%nat by lia. eapply IH; eassumption.
+Qed.
+
+Lemma pos_params_length_ge : forall (a : sig) n,
+  (forall j, j < n -> exists t, nth_error a j = Some t /\ is_positional (pkind t) = true) ->
+  n <= length (pos_params a).
+Proof.
+  induction a as [|q a IH]; intros n H.
+  - destruct n; [lia|]. destruct (H 0 ltac:(lia)) as [t [Ht _]]. discriminate.
+  - destruct n; [lia|]. destruct (H 0 ltac:(lia)) as [t [Ht Hp]]. cbn in Ht. injection Ht as ->.
+    cbn [pos_params filter]. rewrite Hp. cbn [length]. fold (pos_params a).
+    apply le_n_S. apply IH. intros j Hj. apply (H (S j)). lia.
+Qed.
+
+(* positional parameters come first (true of every valid signature) *)
+Fixpoint pos_prefix (s : sig) : bool :=
+  match s with
+  | [] => true
+  | p :: r => if is_positional (pkind p) then pos_prefix r
+              else forallb (fun q => negb (is_positional (pkind q))) r
+  end.
+
+Lemma pos_prefix_nth : forall s j, pos_prefix s = true -> j < length (pos_params s) ->
+  exists m, nth_error s j = Some m /\ is_positional (pkind m) = true.
+Proof.
+  induction s as [|p r IH]; intros j Hp Hj; [cbn in Hj; lia|].
+  cbn [pos_prefix] in Hp. cbn [pos_params filter] in Hj. fold (pos_params r) in Hj.
+  destruct (is_positional (pkind p)) eqn:Ep.
+  - destruct j; [exists p; auto|]. cbn [length] in Hj. cbn [nth_error]. apply IH; [assumption|lia].
+  - assert (pos_params r = []) as Hnil.
+    { clear - Hp. induction r as [|q r IHr]; [reflexivity|]. cbn [forallb] in Hp.
+      apply andb_true_iff in Hp as [H1 H2]. apply negb_true_iff in H1.
+      cbn [pos_params filter]. rewrite H1. apply IHr. assumption. }
+    rewrite Hnil in Hj. cbn in Hj. lia.
+Qed.
+
+Theorem accept_positional_capacity : forall e a, kinds_ok e a = true -> pos_prefix e = true ->
+  has_kind VP a = true \/ length (pos_params e) <= length (pos_params a).
+Proof.
+  intros e a H Hpre. destruct (has_kind VP a) eqn:Hvp; [left; reflexivity|right].
+  unfold kinds_ok, sca in H.
+  destruct (sca_loop a 0 (mkC [] [] [] []) e) as [st|] eqn:E; [|discriminate].
+  apply pos_params_length_ge. intros j Hj.
+  destruct (pos_prefix_nth e j Hpre Hj) as [m [Hm Hp]].
+  destruct (sca_loop_pos a e 0 _ _ E Hvp j m Hm Hp) as [t [Ht Htp]]. eauto.
+Qed.
+
+(* table fact (regenerated table): only positional kinds may precede a positional kind *)
+Lemma before_positional_is_positional : forall k k',
+  is_positional k = true -> kmem k' (allowed_previous k) = true -> is_positional k' = true.
+Proof. intros [] []; vm_compute; intros H1 H2; try reflexivity; discriminate. Qed.
+
+Lemma validate_after_nonpos : forall s seen sd k0,
+  validate_from seen sd s = true -> kmem k0 seen = true -> is_positional k0 = false ->
+  forallb (fun q => negb (is_positional (pkind q))) s = true.
+Proof.
+  induction s as [|p r IH]; intros seen sd k0 Hv Hm Hk0; [reflexivity|].
+  cbn [validate_from] in Hv. apply andb_true_iff in Hv as [Hstep Hrest].
+  unfold validate_step in Hstep. apply andb_true_iff in Hstep as [Hstep _].
+  apply andb_true_iff in Hstep as [Hprev _].
+  assert (Hk : kmem k0 (allowed_previous (pkind p)) = true).
+  { unfold kmem in Hm. apply existsb_exists in Hm as [x [Hin He]].
+    destruct k0, x; try discriminate; rewrite forallb_forall in Hprev; apply (Hprev _ Hin). }
+  cbn [forallb].
+  destruct (is_positional (pkind p)) eqn:Ep.
+  - rewrite (before_positional_is_positional _ _ Ep Hk) in Hk0. discriminate.
+  - cbn [negb andb]. apply (IH _ _ k0 Hrest); [|assumption].
+    cbn [kmem existsb]. fold (kmem k0 seen). rewrite Hm. apply orb_true_r.
+Qed.
+
+Lemma validate_pos_prefix : forall s seen sd, validate_from seen sd s = true -> pos_prefix s = true.
+Proof.
+  induction s as [|p r IH]; intros seen sd Hv; [reflexivity|].
+  cbn [validate_from] in Hv. apply andb_true_iff in Hv as [_ Hrest]. cbn [pos_prefix].
+  destruct (is_positional (pkind p)) eqn:Ep; [eapply IH; eassumption|].
+  apply (validate_after_nonpos _ _ _ (pkind p) Hrest); [|assumption].
+  cbn [kmem existsb]. destruct (pkind p); reflexivity.
+Qed.
+
+Theorem accept_positional_capacity_valid : forall e a,
+  valid_sig e = true -> kinds_ok e a = true ->
+  has_kind VP a = true \/ length (pos_params e) <= length (pos_params a).
+Proof.
+  intros e a Hv H. apply accept_positional_capacity; [assumption|].
+  unfold valid_sig in Hv. apply andb_true_iff in Hv as [Hv _]. eapply validate_pos_prefix; eassumption.
 Qed.
